@@ -43,7 +43,9 @@ def run_scenarios(ctx, scenarios, name, shards=None):
     shards = shards or min(vlib.NCPU, max(1, len(scenarios) // 4))
     scen = ctx.path("scen-%s.ndjson" % name)
     with open(scen, "w") as f:
-        for s in scenarios:
+        for i, s in enumerate(scenarios):
+            if i % 4 == 1 and "prefault" not in s:      # every fourth cell comes after a call whose random source failed (recovered)
+                s = dict(s, prefault=1 + (i // 4) % 6)
             f.write(json.dumps(s) + "\n")
     drv = ctx.build_harness()
     procs, files = [], []
